@@ -25,7 +25,8 @@ REGISTRY = []
 class Loop(object):
     def __init__(self, vars=None, inv=None, variant=None, heap=None, ghost=None, elem=None,
                  done_name="done", note=None, hint=None, tail=None, min_decrease=1, open_dicts=(),
-                 any_order=False, writes=None, temps=(), entry=None):
+                 any_order=False, writes=None, temps=(), entry=None, state=None):
+        self.state = state or {}        # {(class or module, attr): Shape}: class / module state the loop modifies
         self.entry = entry              # spec function run when the loop is reached (ghost snapshots)
         self.any_order = any_order      # for over a concrete dict: each key once, in an arbitrary order
         self.writes = writes            # {key: [locals that iteration may bind]} (pairwise disjoint)
@@ -98,6 +99,8 @@ class Contract(object):
         self.interference = d.get("interference")   # spec fn(args...): what OTHER threads may do to the shared state
         #                                              while this (long-running) callee executes; run at every
         #                                              application of the summary, symbolically and in native stubs
+        self.externals_interference = d.get("externals_interference")   # {"os.urandom": spec fn}: see `interference`,
+        #                                                                    for modelled EXTERNAL functions
         self.call_ghosts = d.get("call_ghosts")   # {callee qualname: (contract name, spec fn -> {ghost param: value})}:
         #                                            ghost witnesses this proof supplies when it applies that contract
         self.pure = d.get("pure")                 # 'str'|'bytes'|'int': result is a function of the arguments
